@@ -38,6 +38,8 @@ class Ctx:
         # every eval case is run twice by the driver (two fresh evaluators): an outcome that changes is a violation of any property
         for c in cases:
             io = res.impl.get(c.id)
+            if io and io.get('kept') not in (None, 'ok'):
+                self.violation('an error handed to the caller (Process / LastDebugErr) %s after later calls on the same evaluator' % ('panics in Error()' if io.get('kept') == 'panic' else 'changed its text'), [c], impl=io)
             if io and io.get('det') == '0':
                 self.violation('the same rule and object gave two different outcomes in one process (map iteration order, left-over state or chance)', [c], impl=io)
         if 'model' in kw.get('sides', ('impl', 'model')) and not getattr(self, '_kc_done', False):
